@@ -251,6 +251,7 @@ type B struct {
 	HasGrpc bool
 	Domain  string            // model of GetDomain: "" = not tracked
 	Link    *errors.IssueLink // the issue link, if the outermost layer is one
+	MarkRef error             // the reference of the innermost-built Mark layer, if any
 }
 
 // StrS draws a string for a channel the library treats as safe, StrU for an unsafe channel.
@@ -411,7 +412,7 @@ func (g *G) Wrap(name string, c *B, kinds []Kind) *B {
 }
 
 func (g *G) WrapOf(name string, c *B, k Kind) *B {
-	b := &B{Kinds: append([]Kind{k}, c.Kinds...), Leaf: c.Leaf, Text: c.Text,
+	b := &B{Kinds: append([]Kind{k}, c.Kinds...), Leaf: c.Leaf, Text: c.Text, MarkRef: c.MarkRef,
 		Hints: c.Hints, Details: c.Details, Unsafe: c.Unsafe, Safe: c.Safe, HTTP: c.HTTP, Grpc: c.Grpc, HasGrpc: c.HasGrpc, Domain: c.Domain}
 	e := c.Err
 	switch k {
@@ -494,7 +495,8 @@ func (g *G) WrapOf(name string, c *B, k Kind) *B {
 		b.Err = errors.WithAssertionFailure(e)
 	case WMark:
 		m := g.StrU(name + ".m")
-		b.Err = errors.Mark(e, stderrors.New(m))
+		b.MarkRef = stderrors.New(m)
+		b.Err = errors.Mark(e, b.MarkRef)
 		b.Unsafe = append(append([]string{}, c.Unsafe...), m)
 	case WSecondary:
 		m := g.StrU(name + ".m")
@@ -598,7 +600,7 @@ func (g *G) BuildUpTo(name string, d int, leaves, wrappers []Kind) *B {
 // deeper recipes and for the quick tier).
 var (
 	RepLeaves   = []Kind{LNew, LNewfUnsafe, LStd, LCtxCanceled, LErrno, LUserPlain, LUserIs, LUserNonComparable, LHandled, LHandledMsg, LJoin, LStdJoin1, LFmtMulti}
-	RepWrappers = []Kind{WWrap, WWrapf, WNewfW, WNewfWExtra, WHint, WDomain, WTags, WMark, WSecondary, WGrpc, WIssueLink, WFmtSuffix, WUserFull, WUserPrefix, WPathError, WPkgMsg}
+	RepWrappers = []Kind{WWrap, WWrapf, WNewfW, WNewfWExtra, WHint, WDetail, WTelemetry, WSafeDetails, WDomain, WTags, WMark, WSecondary, WGrpc, WIssueLink, WFmtSuffix, WUserFull, WUserPrefix, WPathError, WPkgMsg}
 )
 
 // BuildTiered draws a depth in 1..d, a leaf, inner wrappers and an outermost
